@@ -199,7 +199,7 @@ def builtin_channels_independent(ctx, viol):
             cell.channels[:] = perm
             b = np.asarray(jx.integrate(cell))
         n += 1
-        if np.abs(a - b).max() > 1e-12:
+        if np.abs(a - b).max() > 1e-9:        # the currents of the channels are summed in list order: round-off level differences are expected
             viol.append({"kind": "permuting the channel list of built-in channels changes the simulation", "order": order, "permuted": [c._name for c in perm],
                          "max_abs_diff": float(np.abs(a - b).max()), "finding_class": None})
     return n
